@@ -3,6 +3,7 @@ package main
 import (
 	"sort"
 	"context"
+	"encoding/hex"
 	"fmt"
 	"io"
 	"net/http"
@@ -127,6 +128,60 @@ func extraC03(r *Run) {
 				a = "error"
 			}
 			r.Op(sprintf("C03 b64dec %s", hexOrDash([]byte(bad))), map[string]string{"ok": "accepted", "error": "error"}[a])
+		}
+	}
+	// (1b) unit: the one header block of a unary reply — headers under their own keys, trailers under the prefix —
+	// taken apart again by the client (real toHeaders x2 + setMetadata against the Lean model TrailerSplit)
+	splitKeys := []string{"a", "b-key", "x", "x-grpc-trailer", "x-grpc-trailer-", "x-grpc-trailer-a", "x-grpc-trailer-zz", "trailer-a", "zz"}
+	for i := 0; i < r.Budget(120, 3000); i++ {
+		nextID := 1
+		mk := func(allowPrefixed bool) metadata.MD {
+			md := metadata.MD{}
+			for j := 0; j < rng.Intn(4); j++ {
+				k := splitKeys[rng.Intn(len(splitKeys))]
+				if !allowPrefixed && (strings.HasPrefix(k, "x-grpc-trailer-") || rng.Chance(0)) {
+					k = splitKeys[rng.Intn(3)]
+				}
+				if _, dup := md[k]; dup {
+					continue
+				}
+				for v := 0; v < 1+rng.Intn(3); v++ {
+					md[k] = append(md[k], sprintf("%d", nextID))
+					nextID++
+				}
+			}
+			return md
+		}
+		spoofy := rng.Chance(30)
+		hMD, tMD := mk(spoofy), mk(true)
+		delete(tMD, "x-grpc-trailer-") // (as a trailer key this one is fine; kept out only to keep the op line small)
+		hdr := http.Header{}
+		httpgrpc.VerifToHeaders(hMD, hdr, "")
+		httpgrpc.VerifToHeaders(tMD, hdr, "X-GRPC-Trailer-")
+		var gotH, gotT metadata.MD
+		err := httpgrpc.VerifSetMetadata(hdr, []*metadata.MD{&gotH}, []*metadata.MD{&gotT})
+		enc := func(md metadata.MD) string {
+			if len(md) == 0 {
+				return "-"
+			}
+			var parts []string
+			for k, vs := range md {
+				parts = append(parts, hex.EncodeToString([]byte(k))+":"+strings.Join(vs, ","))
+			}
+			sort.Strings(parts)
+			return strings.Join(parts, ";")
+		}
+		ans := "error"
+		if err == nil {
+			ans = "h=" + enc(gotH) + " t=" + enc(gotT)
+		}
+		r.Op(sprintf("C03 split h=%s t=%s", enc(hMD), enc(tMD)), ans)
+		r.Eval(sprintf("split %s %s", enc(hMD), enc(tMD)), len(hMD)+len(tMD) > 0)
+		r.Count("unit:unary-trailer-split")
+		if !spoofy && (err != nil || enc(gotH) != enc(hMD) || enc(gotT) != enc(tMD)) {
+			r.Violate("http/metadata/unary-trailer-split-wrong", "every header and trailer pair the handler sets is visible to the caller through … every grpc.Header/grpc.Trailer call option supplied",
+				sprintf("handler headers %s, trailers %s: the caller's header target holds %s, its trailer target %s (err %v)", enc(hMD), enc(tMD), enc(gotH), enc(gotT), err),
+				map[string]interface{}{"op": "unary-trailer-split", "headers": enc(hMD), "trailers": enc(tMD)}, ans)
 		}
 	}
 	// (2) end to end: outgoing metadata -> handler; handler headers/trailers -> caller (all call options)
